@@ -464,9 +464,14 @@ void cstl_array_slice(cstl_array_t * const a,
     const struct cstl_raw_array * const ra =
         cstl_shared_ptr_get_const(&a->ptr);
 
+    /*
+     * a->off + end could wrap around; compare
+     * against the room left behind the offset
+     */
     if (ra == NULL
         || end < beg
-        || a->off + end > ra->nm) {
+        || a->off > ra->nm
+        || end > ra->nm - a->off) {
         abort();
     }
 
